@@ -494,4 +494,46 @@ def resolveDoc (twoRoots : Bool) (fsT fsC : FS) : Option FS :=
   else if fsC.doc.isSome then some fsC
   else none
 
+/-! ## which document sets a challenge uses: loader.used_corpora + BulkIndexParamSource.used_corpora
+
+Names are numbers.  `TaskSel` is one leaf task of the selected challenge (parallel blocks flattened), with what its
+operation's parameter source selects: only parameter sources that expose `corpora` (bulk) select anything. -/
+
+structure DocSet where
+  id : Nat
+  corpus : Nat
+  index : Option Nat        -- target-index
+  stream : Option Nat       -- target-data-stream
+  bulk : Bool               -- source-format == "bulk"
+deriving DecidableEq, Repr
+
+structure TaskSel where
+  hasCorpora : Bool               -- the parameter source has a `corpora` attribute
+  corpora : Option (List Nat)     -- "corpora" parameter (default: all corpora of the track)
+  indices : List Nat              -- "indices" parameter; empty / missing = no restriction
+  streams : List Nat              -- "data-streams" parameter; empty / missing = no restriction
+deriving DecidableEq, Repr
+
+/-- `corpus.name in corpora_names` and `DocumentCorpus.filter(source_format, target_indices, target_data_streams)` -/
+def selects (t : TaskSel) (d : DocSet) : Bool :=
+  t.hasCorpora && d.bulk &&
+  (match t.corpora with
+   | none => true
+   | some cs => cs.contains d.corpus) &&
+  (t.indices.isEmpty || (match d.index with
+   | some i => t.indices.contains i
+   | none => false)) &&
+  (t.streams.isEmpty || (match d.stream with
+   | some i => t.streams.contains i
+   | none => false))
+
+/-- a bulk parameter source whose filters match nothing raises RallyAssertionError -/
+def taskMatchesNothing (docs : List DocSet) (t : TaskSel) : Bool := t.hasCorpora && !docs.any (selects t)
+
+/-- `loader.used_corpora(track)`: the union, over **every** leaf task of the selected challenge, of what it selects -/
+def usedDocsets (docs : List DocSet) (tasks : List TaskSel) : Option (List DocSet) :=
+  if docs.isEmpty then some []
+  else if tasks.any (taskMatchesNothing docs) then none
+  else some (docs.filter (fun d => tasks.any (fun t => selects t d)))
+
 end Corpus
